@@ -668,8 +668,8 @@ func TestVerif_C25(t *testing.T) {
 	defer r.End()
 	mime.TypeByExtension(".txt") // initialise the mime tables (real sync.Once, file reads) outside the controlled world
 	r.Rule("closed systems of the real fs.go handler (FS.NewRequestHandler, inMemoryCacheManager / noopCacheManager, fsFile reference counting, bigFileReader / fsSmallFileReader, the cleaner loop on virtual time with CacheDuration 1s) over an instrumented in-memory file system: " +
-		"2 request threads (GET streamed to the end through Response.Write, peer dying mid-body, response dropped unread, HEAD, 304, 416, 206; fast and slow clients so that entries expire while being read), optionally a thread closing FS.CleanStop and a thread running the recorded runtime.AddCleanup function; " +
-		"all schedules up to the deviation bound (preemptions, timer-first); oracle on every file handle: no second Close, no Read/ReadAt/Seek after Close, no Close by another thread while a response's body stream over that handle is installed and unclosed, every handle closed 3s after the last response ended; " +
+		"1-2 request threads (GET streamed to the end through Response.Write, peer dying mid-body, response dropped unread, HEAD, 304, 416, 206; fast and slow clients so that entries expire while being read; fs.FS, osFS small-file and osFS big-file readers, SkipCache, transparent compression), optionally a thread closing FS.CleanStop (at any time / after the handler calls) and a thread running the recorded runtime.AddCleanup function; " +
+		"all schedules up to the deviation bound (preemptions, timer-first); oracle on every file handle: no second Close, no Read/ReadAt/Seek after Close, no Close by another thread while a response's body stream over that handle is installed and unclosed, every handle closed within 6s (6x CacheDuration) after the last response ended; " +
 		"invariant in every state: no reachable fsFile has readersCount < 0; non-trivial: executions with >=1 deviation")
 	r.Assume("mcrt shim semantics (litmus-tested)", "sync.Pool modelled as deterministic LIFO without scheduling points",
 		"runtime.AddCleanup recorded by engine/seamfs and run by a harness thread after the last handler call returned (the KeepAlive in fs.go gives the collector exactly that guarantee)",
@@ -677,7 +677,9 @@ func TestVerif_C25(t *testing.T) {
 		"Date header off (Server.NoDefaultDate) so that the date refresher goroutine is not part of the model")
 	b := vrt.Pick(r, 2, 3)
 	var scs []mcx.Scenario
-	add := func(name string, bound int, sc c25scn) {
+	var weights []int
+	// weight: measured executions at bound 3, in thousands - only used to balance the static scenario -> worker assignment
+	add := func(name string, weight, bound int, sc c25scn) {
 		if f := os.Getenv("C25_ONLY"); f != "" && !strings.Contains(name, f) { // development aid: run a subset
 			return
 		}
@@ -687,6 +689,16 @@ func TestVerif_C25(t *testing.T) {
 		if sc.bufSize == 0 {
 			sc.bufSize = 64
 		}
+		switch {
+		case strings.HasPrefix(name, "skipcache"):
+			weight = 4
+		case strings.HasPrefix(name, "osfs-small"):
+			weight /= 2
+		}
+		if bound < 3 {
+			weight /= 20
+		}
+		weights = append(weights, weight)
 		scs = append(scs, mcx.Scenario{Name: name, Cfg: mcrt.Config{Bound: bound, TimerFirst: true, Horizon: 8000}, Body: c25body(sc), Check: c25check(sc)})
 	}
 	const slow = 600 * time.Millisecond
@@ -707,35 +719,51 @@ func TestVerif_C25(t *testing.T) {
 			return c25scn{fsKind: v.fk, sizes: v.sizes, bufSize: v.buf, reqs: reqs, stop: stop, stopAt: stopAt, stopGate: gate, seqHandlers: gate && stop != 0}
 		}
 		half := v.sizes["s.txt"] / 2
-		add(v.name+"/same-file/full+full", b, mk([]c25req{{file: "s.txt"}, {file: "s.txt"}}, 0, 0, false))
-		add(v.name+"/same-file/full+early", b, mk([]c25req{{file: "s.txt"}, {file: "s.txt", kind: c25Early, failAfter: half}}, 0, 0, false))
-		add(v.name+"/same-file/full+drop", b, mk([]c25req{{file: "s.txt"}, {file: "s.txt", kind: c25Drop}}, 0, 0, false))
+		b, b3 := b, b
+		if v.name == "osfs-big" {
+			// same reader type as the fs.FS flavour (identical spaces): one bound step less in the thorough tier, except for
+			// the three scenarios marked b3 (expiry under a reader, stop at any time, both closers)
+			b = 2
+		}
+		add(v.name+"/same-file/full+full", 760, b, mk([]c25req{{file: "s.txt"}, {file: "s.txt"}}, 0, 0, false))
+		add(v.name+"/same-file/full+early", 700, b, mk([]c25req{{file: "s.txt"}, {file: "s.txt", kind: c25Early, failAfter: half}}, 0, 0, false))
+		add(v.name+"/same-file/full+drop", 760, b, mk([]c25req{{file: "s.txt"}, {file: "s.txt", kind: c25Drop}}, 0, 0, false))
 		if v.fk == c25FSskip {
 			continue
 		}
-		add(v.name+"/expiry/slow-full+early", b, mk([]c25req{{file: "s.txt", delay: slow}, {file: "s.txt", kind: c25Early, failAfter: half}}, 0, 0, false))
-		add(v.name+"/expiry/full+late-hit-full", b, mk([]c25req{{file: "s.txt"}, {file: "s.txt", start: 1200 * time.Millisecond}}, 0, 0, false))
-		add(v.name+"/expiry/slow-full+late-hit-drop", b, mk([]c25req{{file: "s.txt", delay: slow}, {file: "s.txt", kind: c25Drop, start: 1200 * time.Millisecond}}, 0, 0, false))
-		add(v.name+"/expiry/slow-early+late-miss-full", b, mk([]c25req{{file: "s.txt", kind: c25Early, failAfter: half, delay: 900 * time.Millisecond}, {file: "s.txt", start: 1600 * time.Millisecond}}, 0, 0, false))
-		add(v.name+"/cleanstop-anytime/full", b, mk([]c25req{{file: "s.txt"}}, c25StopCleanStop, 0, false))
-		add(v.name+"/cleanstop-anytime/full+drop", b-1, mk([]c25req{{file: "s.txt"}, {file: "s.txt", kind: c25Drop}}, c25StopCleanStop, 0, false))
-		add(v.name+"/cleanstop-after-handlers/slow-full+early", b, mk([]c25req{{file: "s.txt", delay: slow}, {file: "s.txt", kind: c25Early, failAfter: half}}, c25StopCleanStop, 0, true))
+		add(v.name+"/expiry/slow-full+early", 310, b3, mk([]c25req{{file: "s.txt", delay: slow}, {file: "s.txt", kind: c25Early, failAfter: half}}, 0, 0, false))
+		add(v.name+"/expiry/full+late-hit-full", 470, b, mk([]c25req{{file: "s.txt"}, {file: "s.txt", start: 1200 * time.Millisecond}}, 0, 0, false))
+		add(v.name+"/expiry/slow-full+late-hit-drop", 850, b, mk([]c25req{{file: "s.txt", delay: slow}, {file: "s.txt", kind: c25Drop, start: 1200 * time.Millisecond}}, 0, 0, false))
+		add(v.name+"/expiry/slow-early+late-miss-full", 620, b, mk([]c25req{{file: "s.txt", kind: c25Early, failAfter: half, delay: 900 * time.Millisecond}, {file: "s.txt", start: 1600 * time.Millisecond}}, 0, 0, false))
+		add(v.name+"/cleanstop-anytime/full", 220, b3, mk([]c25req{{file: "s.txt"}}, c25StopCleanStop, 0, false))
+		add(v.name+"/cleanstop-anytime/full+drop", 3600, b3-1, mk([]c25req{{file: "s.txt"}, {file: "s.txt", kind: c25Drop}}, c25StopCleanStop, 0, false))
+		add(v.name+"/cleanstop-after-handlers/slow-full+early", 945, b, mk([]c25req{{file: "s.txt", delay: slow}, {file: "s.txt", kind: c25Early, failAfter: half}}, c25StopCleanStop, 0, true))
 		// the largest space of the list (5 threads): kept at bound 2 in both tiers, ~3*10^6 executions at bound 3
-		add(v.name+"/finalise/full+full", 2, mk([]c25req{{file: "s.txt"}, {file: "s.txt"}}, c25StopFinalise, 0, true))
-		add(v.name+"/finalise/expired-slow-full+drop", b, mk([]c25req{{file: "s.txt", delay: slow}, {file: "s.txt", kind: c25Drop, start: 1200 * time.Millisecond}}, c25StopFinalise, 700*time.Millisecond, true))
-		add(v.name+"/cleanstop+finalise/slow-full", b, mk([]c25req{{file: "s.txt", delay: slow}}, c25StopCleanStop|c25StopFinalise, 0, true))
+		add(v.name+"/finalise/full+full", 2000, 2, mk([]c25req{{file: "s.txt"}, {file: "s.txt"}}, c25StopFinalise, 0, true))
+		add(v.name+"/finalise/expired-slow-full+drop", 1570, b, mk([]c25req{{file: "s.txt", delay: slow}, {file: "s.txt", kind: c25Drop, start: 1200 * time.Millisecond}}, c25StopFinalise, 700*time.Millisecond, true))
+		add(v.name+"/cleanstop+finalise/slow-full", 610, b3, mk([]c25req{{file: "s.txt", delay: slow}}, c25StopCleanStop|c25StopFinalise, 0, true))
 		if v.name != "osfs-big" {
-			add(v.name+"/two-files/full+early", b, mk([]c25req{{file: "s.txt"}, {file: "t.txt", kind: c25Early, failAfter: half}}, 0, 0, false))
-			add(v.name+"/no-body/head+notmod", b, mk([]c25req{{file: "s.txt", kind: c25Head}, {file: "s.txt", kind: c25NotMod}}, 0, 0, false))
-			add(v.name+"/ranges/badrange+range", b, mk([]c25req{{file: "s.txt", kind: c25BadRange}, {file: "s.txt", kind: c25Range}}, 0, 0, false))
+			add(v.name+"/two-files/full+early", 920, b, mk([]c25req{{file: "s.txt"}, {file: "t.txt", kind: c25Early, failAfter: half}}, 0, 0, false))
+			add(v.name+"/no-body/head+notmod", 425, b, mk([]c25req{{file: "s.txt", kind: c25Head}, {file: "s.txt", kind: c25NotMod}}, 0, 0, false))
+			add(v.name+"/ranges/badrange+range", 820, b, mk([]c25req{{file: "s.txt", kind: c25BadRange}, {file: "s.txt", kind: c25Range}}, 0, 0, false))
 		}
 	}
 	// transparent compression over an fs.FS: a compressible file is read, compressed into memory and its handle closed
 	// inside the handler call; an incompressible one is served (and cached under the gzip kind) like a plain file.
 	cz := map[string]int{"s.txt": 300, "r.txt": 300}
 	// (the stackless compressor adds a worker thread and dozens of blocking hand-offs: one request only, one bound step less)
-	add("iofs-compress/compressible/full", b-1, c25scn{fsKind: c25FSio, sizes: cz, compress: true, reqs: []c25req{{file: "s.txt"}}})
-	add("iofs-compress/incompressible/early", b-1, c25scn{fsKind: c25FSio, sizes: cz, compress: true, reqs: []c25req{{file: "r.txt", kind: c25Early, failAfter: 150}}})
+	add("iofs-compress/compressible/full", 300, b-1, c25scn{fsKind: c25FSio, sizes: cz, compress: true, reqs: []c25req{{file: "s.txt"}}})
+	add("iofs-compress/incompressible/early", 60, b-1, c25scn{fsKind: c25FSio, sizes: cz, compress: true, reqs: []c25req{{file: "r.txt", kind: c25Early, failAfter: 150}}})
+	// mcx deals scenario i to worker i mod 16: heaviest first gives every worker a similar load
+	idx := make([]int, len(scs))
+	for i := range idx {
+		idx[i] = i
+	}
+	sort.SliceStable(idx, func(a, b int) bool { return weights[idx[a]] > weights[idx[b]] })
+	sorted := make([]mcx.Scenario, len(scs))
+	for i, j := range idx {
+		sorted[i] = scs[j]
+	}
 	r.Set("preemption_bound", fmt.Sprint(b))
-	mcx.Run(r, scs)
+	mcx.Run(r, sorted)
 }
